@@ -260,9 +260,10 @@ def boot(listing=None, hide_pycache=False):
 # --------------------------------------------------------------------------------------
 class Monitor:
     """Per-analysis recording of the main loop (one event per pop_tokens)."""
-    __slots__ = ("pops", "updated", "ntokens", "who_emitted", "cur_rule")
+    __slots__ = ("pops", "updated", "ntokens", "who_emitted", "cur_rule", "files")
 
     def reset(self):
+        self.files = []     # one record per Context created since the reset (= per file examined)
         self.pops = []
         self.updated = False
         self.ntokens = 0
@@ -287,6 +288,7 @@ def _install_wrappers(ns):
         orig_init(self, file, tokens, *a, **k)
         mon.ntokens = len(tokens)
         mon.pops = []
+        mon.files.append({"path": getattr(file, "path", None), "ntokens": len(tokens), "pops": mon.pops})
         mon.updated = False
         clock.arm(len(tokens))
     Context.__init__ = ctx_init
@@ -933,6 +935,11 @@ class Executor:
         res["who"] = MON.who_emitted
         res["pops"] = MON.pops
         res["ntokens"] = MON.ntokens
+        res["files_mon"] = [{"path": self.relpath(fr["path"]), "ntokens": fr["ntokens"], "iterations": len(fr["pops"]),
+                             "unmatched": sum(1 for p in fr["pops"] if p[3] is None),
+                             "left": (fr["pops"][-1][2] if fr["pops"] else fr["ntokens"]),
+                             "min_stop": min([p[1] for p in fr["pops"] if isinstance(p[1], int)], default=None)}
+                            for fr in MON.files]
         res["max_ratio"] = round(CLOCK.max_ratio, 3)
         res["opens"] = sum(1 for e in self.log if e[0] == "open")
         self.ev("cli", [self.relpath(a) for a in op["argv"]], res["end"], res.get("exit"),
